@@ -1566,9 +1566,14 @@ class Module(ABC):
         """Removes all recordings from the module."""
         if isinstance(self, View):
             base_recs = self.base.recordings
-            self.base.recordings = base_recs[
-                ~base_recs.isin(self.recordings).all(axis=1)
-            ]
+            if not base_recs.empty and not self.recordings.empty:
+                # Compare rows by value (`DataFrame.isin` aligns on the index labels,
+                # which repeat as soon as `record` has been called more than once).
+                cols = ["rec_index", "state"]
+                in_view = pd.MultiIndex.from_frame(base_recs[cols]).isin(
+                    pd.MultiIndex.from_frame(self.recordings[cols])
+                )
+                self.base.recordings = base_recs[~in_view]
             self._update_view()
         else:
             self.base.recordings = pd.DataFrame().from_dict({})
